@@ -60,3 +60,15 @@ Example C20_mixed :
            mkHost "h.example.com" None MdnsErr (OsOk [7%N; 8%N])]
   = (inl [1; 6; 4; 9; 7; 8]%N, [CallMdns "dev"; CallMdns "x"; CallOs "x.local"; CallOs "h.example.com"]).
 Proof. vm_compute. reflexivity. Qed.
+
+(* a host on which the mDNS engine cannot be created (AsyncZeroconf() raises OSError): the failed creation leaves the manager as
+   it was - in particular it does not come to believe that it owns whatever instance it is given later - so the application can
+   still hand over its own engine, which no later operation closes (covered by C20_never_closes_application_instance: the
+   theorem quantifies over all operation histories, these two operations included) *)
+Theorem C20_failed_creation_changes_nothing : forall s,
+  z_inst s = None -> zstep s ZGetNoSockets = (s, [ZRaise]) /\ zstep s ZServiceInfoNoSockets = (s, [ZRaise]).
+Proof. intros s H. cbn. rewrite H. split; reflexivity. Qed.
+Example C20_failed_creation_then_application_instance :
+  zrun (mkZcm false None) [ZGetNoSockets; ZSetInstance; ZClose; ZServiceInfoNoSockets; ZClose]
+  = (mkZcm false (Some App), [ZRaise]).
+Proof. vm_compute. reflexivity. Qed.
